@@ -169,8 +169,14 @@ impl<'a> MessageParser<'a> {
             });
         }
 
-        // Extract field content using the field_extractor module
-        let extract_result = extract_field_content(&self.input[self.position..], tag);
+        // Extract field content using the field_extractor module.
+        // The field must be the next one at the cursor (leading whitespace aside):
+        // searching ahead would skip, and silently drop, whatever lies in between.
+        let extract_result = if self.detect_field(tag) {
+            extract_field_content(&self.input[self.position..], tag)
+        } else {
+            None
+        };
 
         match extract_result {
             Some((content, consumed)) => {
